@@ -239,3 +239,77 @@ def pinned_lockstep(rounds=40, n=3):
         return problems, stats
     finally:
         cl.shutdown()
+
+
+def snapshot_install_crash(gate="walsave", seed=1):
+    """A follower that was down while the others compacted their logs comes back and is sent the leader's snapshot (by a
+    leader of a NEW term, so that the hard state of that Ready is synced); it dies at `gate` inside the Ready cycle that
+    carries the snapshot (crash gate armed by ready:snap), and is started again. Whatever it had persisted at that point,
+    it must be able to start: a node whose own files make raft.RestartNode (or the WAL replay) refuse them is lost for good.
+    Returns (problems, stats); process death at restart is the only verdict (what the node then serves is C08's known
+    finding about snapshots)."""
+    cl = cluster.Cluster(3, snapcount=20, catchup=5, trace=True).start_all()
+    stats = {"gate": gate, "writes": 0, "died_at_gate": False}
+    problems = []
+    try:
+        if cl.wait_serving(timeout=60) is None:
+            return None, dict(stats, inconclusive="cluster did not start serving")
+        L = leader_of(cl)
+        if L is None:
+            return None, dict(stats, inconclusive="no leader line in the logs")
+        F, P = [nd for nd in cl.nodes if nd is not L]
+        cl.kill(F)
+        c = L.client(timeout=10.0)
+        for i in range(90):
+            try:
+                c.cmd("SET", "si%d" % (i % 7), "v%d" % i, timeout=10.0)
+                stats["writes"] += 1
+            except Exception:
+                break
+        c.close()
+        time.sleep(1.0)
+        if not any(e.get("ev") == "snapshot_done" for e in cl.events(L)):
+            return None, dict(stats, inconclusive="the leader did not compact its log")
+        # a new term: restart the leader (L and P both hold everything; one of them wins)
+        cl.kill(L)
+        cl.start_node(L)
+        if cl.wait_serving(nodes=[P, L], timeout=60) is None:
+            return None, dict(stats, inconclusive="no leader after the leader's restart")
+        cl.start_node(F, crash_at="%s#1" % gate, crash_arm="ready:snap")
+        t0 = time.time()
+        while F.alive() and time.time() - t0 < 40:
+            time.sleep(0.05)
+        if F.alive():
+            return None, dict(stats, inconclusive="the follower never reached gate %s in a Ready that carries a snapshot" % gate)
+        stats["died_at_gate"] = True
+        # the order in which the follower made the parts of that Ready durable, as its own event trace shows it (B3 lead:
+        # Recover.tla is instantiated with the observed order when it is not the specified one)
+        order, in_snap_ready = None, False
+        for e in cl.events(F):
+            if e.get("ev") == "ready":
+                in_snap_ready = e.get("snap") == "true"
+            elif in_snap_ready and e.get("ev") in ("savesnap", "walsave") and order is None:
+                order = "snap_first" if e["ev"] == "savesnap" else "save_first"
+        stats["ready_snapshot_order"] = order
+        cl.start_node(F)
+        t0 = time.time()
+        served = False
+        while time.time() - t0 < 60:
+            if not F.alive():
+                break
+            try:
+                cc = F.client(timeout=3.0)
+                r = cc.cmd("PING", timeout=3.0)
+                cc.close()
+                if r[0] in ("+", "$"):
+                    served = True
+                    break
+            except Exception:
+                time.sleep(0.3)
+        stats["served_after_restart"] = served
+        if not F.alive():
+            problems.append({"kind": "cannot-restart", "gate": gate,
+                             "detail": "the follower died at %s while installing the leader's snapshot and cannot start any more: %s" % (gate, cl.tail(F, 600).strip().splitlines()[-3:])})
+        return problems, stats
+    finally:
+        cl.shutdown()
